@@ -47,6 +47,8 @@ type context struct {
 type tryFrame struct {
 	// holds an uncaught exception for the 'finally' block
 	exception *Exception
+	// holds the value of the generator return() completion that is routed through this 'finally' block (finallyRet == -2)
+	retVal Value
 
 	callStackLen, iterLen, refLen uint32
 
